@@ -155,9 +155,20 @@ func (a *c06Acc) flush(run *vfRun) {
 	for k, v := range a.Counters {
 		run.Count(k, v)
 	}
+	// one witness of every signature first (the run keeps a bounded number of witness files), then the second ones, ...
 	sort.SliceStable(a.Viols, func(i, j int) bool { return a.Viols[i].Sig < a.Viols[j].Sig })
-	for _, v := range a.Viols {
-		run.Violation(v.Sig, v.Summary, v.Detail)
+	rank := make([]int, len(a.Viols))
+	for i := range a.Viols {
+		if i > 0 && a.Viols[i].Sig == a.Viols[i-1].Sig {
+			rank[i] = rank[i-1] + 1
+		}
+	}
+	for r := 0; r < 4; r++ {
+		for i, v := range a.Viols {
+			if rank[i] == r {
+				run.Violation(v.Sig, v.Summary, v.Detail)
+			}
+		}
 	}
 	for sig, n := range a.ViolN {
 		run.Count("violations["+sig+"]", n)
@@ -189,7 +200,6 @@ type c06Ctx struct {
 	LW    *vfWorld // world of A, B, C: replaced every so many logins (the fake IdP keeps a log of every login)
 	BaseA c06Base
 	BaseC c06Base
-	logins int64
 }
 
 func c06HtpasswdLine(user, pass string) string {
@@ -248,7 +258,6 @@ func (cx *c06Ctx) Rotate(t testing.TB) error {
 	w := vfNewWorld(t)
 	c06CacheIDToken(w)
 	cx.LW = w
-	cx.logins = 0
 	var err error
 	if cx.A, err = w.NewProxy(cx.wlFlags()...); err != nil {
 		return err
@@ -291,6 +300,9 @@ func c06Outs(resp *vfResp, a *c06Acc) []c06Out {
 		if k := strings.Index(strings.ToLower(v), "url="); k >= 0 {
 			outs = append(outs, c06Out{"Refresh", strings.Trim(v[k+4:], `"' `)})
 		}
+	}
+	if resp.Code >= 300 && resp.Code < 400 && len(outs) > 0 {
+		return outs // a browser follows the Location and never renders the body of a redirect
 	}
 	// the direct driver's recorder does not sniff a Content-Type once WriteHeader was called explicitly (the real server
 	// does): an absent type is sniffed here the way net/http and browsers do
